@@ -303,7 +303,7 @@ def task_backpressure(scns):
 
 def run(ctx):
     quick = ctx.tier == 'quick'
-    depth = 3 if quick else 4
+    depth = 4 if quick else 5
     st = explore.bfs(ctx, FACTORY, {'small': quick}, max_depth=depth, ops_chunk=10)
     scns = list(backpressure_scenarios(ctx.tier))
     pool = Pool()
